@@ -1,4 +1,357 @@
 #!/usr/bin/env python3
-"""Translator stub (extended below): writes Gen/*.lean from /repo's current source; prints a JSON summary."""
-import json, sys
-print(json.dumps({"summary": {}}))
+"""Python `ast` -> Lean translator.
+
+usage: py2lean.py <repo> <outdir>      writes <outdir>/*.lean (only when the content changed, so `lake build` stays a no-op
+                                        when the relevant source is unchanged) and prints a JSON summary on stdout.
+
+Translated fragment (anything else is reported as `untranslatable` and the generated definition becomes `E.bad`, which makes
+every theorem about it fail - a broken tie, never a silently wrong model):
+
+  * straight-line bodies  `name = <expr>` ... `return <expr>`  built from  + - * / **, unary minus, numeric literals, names,
+    math.exp/log/sqrt/pi, float(x), class attribute constants (self.Ck1), calls to sibling forms (`buck(r, A, rho, 0.0)`,
+    `buck.deriv(...)` are inlined).
+  * numeric literals become exact rationals of their decimal source text (`E.lit n d` with natural-number numerals; never a
+    Lean scientific literal);  `x ** <integer literal>` becomes `E.npow`, any other `**` becomes `E.rpow`.
+  * closures `potential`, `deriv`, `deriv2` inside `plus`, `product`, `pow` (atsim/potentials/__init__.py): free names become
+    function symbols (`E2`, see Gen/Combinators.lean).
+  * the literal matrices of Exp_Spline / Buck4_Spline (atsim/potentials/spline/__init__.py).
+"""
+import ast
+import json
+import os
+import sys
+from fractions import Fraction as Fr
+
+
+class Untranslatable(Exception):
+    pass
+
+
+# ----------------------------------------------------------------------------------------------------------------------
+# expression terms (python side): tuples
+def lit_of_text(text):
+    q = Fr(text)
+    if q < 0:
+        return ("neg", ("lit", -q.numerator, q.denominator))
+    return ("lit", q.numerator, q.denominator)
+
+
+class FormTranslator(object):
+    def __init__(self, src, tree):
+        self.src = src
+        self.tree = tree
+        self.classes = {}
+        self.instances = {}       # module-level name -> class name   (buck = _buck())
+        for node in tree.body:
+            if isinstance(node, ast.ClassDef):
+                self.classes[node.name] = node
+            if isinstance(node, ast.Assign) and len(node.targets) == 1 and isinstance(node.targets[0], ast.Name) \
+                    and isinstance(node.value, ast.Call) and isinstance(node.value.func, ast.Name):
+                self.instances[node.targets[0].id] = node.value.func.id
+
+    def class_consts(self, cls):
+        out = {}
+        for n in cls.body:
+            if isinstance(n, ast.Assign) and len(n.targets) == 1 and isinstance(n.targets[0], ast.Name) and isinstance(n.value, ast.Constant):
+                out[n.targets[0].id] = lit_of_text(ast.get_source_segment(self.src, n.value))
+        return out
+
+    def method(self, cls, name):
+        for n in cls.body:
+            if isinstance(n, ast.FunctionDef) and n.name == name:
+                return n
+        return None
+
+    def translate_method(self, clsname, mname, depth=0):
+        """-> (params, term) with r = ('var',) and params ('param', i)"""
+        if depth > 4:
+            raise Untranslatable("sibling call nesting too deep")
+        cls = self.classes[clsname]
+        fn = self.method(cls, mname)
+        if fn is None:
+            raise Untranslatable("no method %s" % mname)
+        if fn.args.vararg or fn.args.kwarg or fn.args.kwonlyargs:
+            raise Untranslatable("varargs")
+        args = [a.arg for a in fn.args.args]
+        if len(args) < 2 or args[0] != "self":
+            raise Untranslatable("unexpected signature")
+        env = {args[1]: ("var",)}
+        for i, a in enumerate(args[2:]):
+            env[a] = ("param", i)
+        consts = self.class_consts(cls)
+        body = [s for s in fn.body if not (isinstance(s, ast.Expr) and isinstance(s.value, ast.Constant) and isinstance(s.value.value, str))]
+        for st in body:
+            if isinstance(st, ast.Assign) and len(st.targets) == 1 and isinstance(st.targets[0], ast.Name):
+                env[st.targets[0].id] = self.expr(st.value, env, consts, depth)
+            elif isinstance(st, ast.Return):
+                return args[2:], self.expr(st.value, env, consts, depth)
+            else:
+                raise Untranslatable("statement %s" % type(st).__name__)
+        raise Untranslatable("no return")
+
+    def expr(self, e, env, consts, depth):
+        if isinstance(e, ast.Constant):
+            if isinstance(e.value, bool) or not isinstance(e.value, (int, float)):
+                raise Untranslatable("constant %r" % (e.value,))
+            return lit_of_text(ast.get_source_segment(self.src, e))
+        if isinstance(e, ast.Name):
+            if e.id in env:
+                return env[e.id]
+            raise Untranslatable("free name %s" % e.id)
+        if isinstance(e, ast.Attribute):
+            if isinstance(e.value, ast.Name) and e.value.id == "self" and e.attr in consts:
+                return consts[e.attr]
+            if isinstance(e.value, ast.Name) and e.value.id == "math" and e.attr == "pi":
+                return ("pi",)
+            raise Untranslatable("attribute %s" % ast.dump(e)[:60])
+        if isinstance(e, ast.UnaryOp) and isinstance(e.op, ast.USub):
+            return ("neg", self.expr(e.operand, env, consts, depth))
+        if isinstance(e, ast.UnaryOp) and isinstance(e.op, ast.UAdd):
+            return self.expr(e.operand, env, consts, depth)
+        if isinstance(e, ast.BinOp):
+            if isinstance(e.op, ast.Pow):
+                base = self.expr(e.left, env, consts, depth)
+                n = self.int_literal(e.right)
+                if n is not None and n >= 0:
+                    return ("npow", base, n)
+                return ("rpow", base, self.expr(e.right, env, consts, depth))
+            a = self.expr(e.left, env, consts, depth)
+            b = self.expr(e.right, env, consts, depth)
+            op = {ast.Add: "add", ast.Sub: "sub", ast.Mult: "mul", ast.Div: "div"}.get(type(e.op))
+            if op is None:
+                raise Untranslatable("operator %s" % type(e.op).__name__)
+            return (op, a, b)
+        if isinstance(e, ast.Call):
+            f = e.func
+            if e.keywords:
+                raise Untranslatable("keyword call")
+            if isinstance(f, ast.Attribute) and isinstance(f.value, ast.Name) and f.value.id == "math" and f.attr in ("exp", "log", "sqrt"):
+                if len(e.args) != 1:
+                    raise Untranslatable("math.%s arity" % f.attr)
+                return (f.attr, self.expr(e.args[0], env, consts, depth))
+            if isinstance(f, ast.Name) and f.id == "float" and len(e.args) == 1:
+                return self.expr(e.args[0], env, consts, depth)
+            # sibling form:  buck(r, A, rho, 0.0)   /   buck.deriv(r, A, rho, 0.0)
+            target = None
+            if isinstance(f, ast.Name) and f.id in self.instances:
+                target = (self.instances[f.id], "__call__")
+            if isinstance(f, ast.Attribute) and isinstance(f.value, ast.Name) and f.value.id in self.instances and f.attr in ("deriv", "deriv2"):
+                target = (self.instances[f.value.id], f.attr)
+            if target:
+                params, term = self.translate_method(target[0], target[1], depth + 1)
+                actual = [self.expr(a, env, consts, depth) for a in e.args]
+                if len(actual) != len(params) + 1:
+                    raise Untranslatable("sibling call arity")
+                return subst(term, actual[0], actual[1:])
+            raise Untranslatable("call %s" % ast.dump(f)[:60])
+        raise Untranslatable("expression %s" % type(e).__name__)
+
+    @staticmethod
+    def int_literal(e):
+        if isinstance(e, ast.Constant) and isinstance(e.value, int) and not isinstance(e.value, bool):
+            return e.value
+        if isinstance(e, ast.Constant) and isinstance(e.value, float) and e.value == int(e.value) and abs(e.value) < 1000:
+            return int(e.value)
+        return None
+
+
+def subst(t, var, params):
+    k = t[0]
+    if k == "var":
+        return var
+    if k == "param":
+        return params[t[1]]
+    if k in ("lit", "pi", "bad"):
+        return t
+    if k == "npow":
+        return ("npow", subst(t[1], var, params), t[2])
+    return (k,) + tuple(subst(x, var, params) for x in t[1:])
+
+
+def size(t):
+    if t[0] in ("var", "param", "lit", "pi", "bad", "sym"):
+        return 1
+    if t[0] == "npow":
+        return 1 + size(t[1])
+    return 1 + sum(size(x) for x in t[1:])
+
+
+def lean(t, ns="E"):
+    k = t[0]
+    if k == "var":
+        return ".var"
+    if k == "param":
+        return "(.param %d)" % t[1]
+    if k == "lit":
+        return "(.lit %d %d)" % (t[1], t[2])
+    if k == "pi":
+        return ".pi"
+    if k == "bad":
+        return ".bad"
+    if k == "sym":
+        return "(.sym %d)" % t[1]
+    if k == "npow":
+        return "(.npow %s %d)" % (lean(t[1]), t[2])
+    return "(.%s %s)" % (k, " ".join(lean(x) for x in t[1:]))
+
+
+def write_if_changed(path, text):
+    old = None
+    if os.path.exists(path):
+        old = open(path).read()
+    if old != text:
+        os.makedirs(os.path.dirname(path), exist_ok=True)
+        with open(path, "w") as f:
+            f.write(text)
+        return True
+    return False
+
+
+# ----------------------------------------------------------------------------------------------------------------------
+def gen_forms(repo, outdir, summary):
+    path = os.path.join(repo, "atsim/potentials/potentialfunctions.py")
+    src = open(path).read()
+    ft = FormTranslator(src, ast.parse(src))
+    out = ["import AtsimModel.Model.Expr",
+           "/-! GENERATED by translator/py2lean.py from atsim/potentials/potentialfunctions.py - do not edit.",
+           "    One `E` term per method body; parameters are numbered in signature order (after `self, r`). -/",
+           "namespace Atsim.Gen", "open Atsim", ""]
+    forms = {}
+    table = []
+    for inst, clsname in sorted(ft.instances.items()):
+        if clsname not in ft.classes:
+            continue
+        entry = dict(cls=clsname, methods={})
+        for m, lname in (("__call__", "call"), ("deriv", "deriv"), ("deriv2", "deriv2")):
+            try:
+                params, term = ft.translate_method(clsname, m)
+                entry["params"] = params
+                entry["methods"][lname] = dict(ok=True, nodes=size(term))
+            except Untranslatable as e:
+                term = ("bad",)
+                entry["methods"][lname] = dict(ok=False, why=str(e))
+            out.append("def %s_%s : E := %s" % (inst, lname, lean(term)))
+        params = entry.get("params", [])
+        out.append("def %s_params : List String := [%s]" % (inst, ", ".join('"%s"' % p for p in params)))
+        out.append("")
+        forms[inst] = entry
+        table.append('("%s", %s_call, %s_deriv, %s_deriv2, %d)' % (inst, inst, inst, inst, len(params)))
+    out.append("/-- (name, call, deriv, deriv2, number of parameters) for the driver's Float evaluation -/")
+    out.append("def formTable : List (String × E × E × E × Nat) := [\n  " + ",\n  ".join(table) + "]")
+    out += ["", "end Atsim.Gen", ""]
+    changed = write_if_changed(os.path.join(outdir, "Forms.lean"), "\n".join(out))
+    summary["forms"] = dict(changed=changed, forms={k: {m: (v["ok"] if v["ok"] else v["why"]) for m, v in e["methods"].items()} for k, e in forms.items()})
+    return forms
+
+
+# ----------------------------------------------------------------------------------------------------------------------
+class ClosureTranslator(object):
+    """closures inside plus/product/pow: free callables become symbols, `f(r)` becomes `.app k`"""
+    SYMS = ["a", "b", "deriv_a", "deriv_b", "deriv2_a", "deriv2_b", "potential", "deriv"]
+
+    def __init__(self, src):
+        self.src = src
+
+    def closure(self, fn):
+        env = {}
+        body = [s for s in fn.body if not (isinstance(s, ast.Expr) and isinstance(s.value, ast.Constant))]
+        rname = fn.args.args[0].arg
+        for st in body:
+            if isinstance(st, ast.Assign) and len(st.targets) == 1 and isinstance(st.targets[0], ast.Name):
+                env[st.targets[0].id] = self.expr(st.value, env, rname)
+            elif isinstance(st, ast.Return):
+                return self.expr(st.value, env, rname)
+            else:
+                raise Untranslatable("statement %s" % type(st).__name__)
+        raise Untranslatable("no return")
+
+    def expr(self, e, env, rname):
+        if isinstance(e, ast.Constant) and isinstance(e.value, (int, float)) and not isinstance(e.value, bool):
+            return lit_of_text(ast.get_source_segment(self.src, e))
+        if isinstance(e, ast.Name):
+            if e.id in env:
+                return env[e.id]
+            raise Untranslatable("free name %s" % e.id)
+        if isinstance(e, ast.UnaryOp) and isinstance(e.op, ast.USub):
+            return ("neg", self.expr(e.operand, env, rname))
+        if isinstance(e, ast.BinOp):
+            if isinstance(e.op, ast.Pow):
+                n = FormTranslator.int_literal(e.right)
+                if n is not None and n >= 0:
+                    return ("npow", self.expr(e.left, env, rname), n)
+                return ("rpow", self.expr(e.left, env, rname), self.expr(e.right, env, rname))
+            op = {ast.Add: "add", ast.Sub: "sub", ast.Mult: "mul", ast.Div: "div"}.get(type(e.op))
+            if op is None:
+                raise Untranslatable("operator")
+            return (op, self.expr(e.left, env, rname), self.expr(e.right, env, rname))
+        if isinstance(e, ast.Call):
+            f = e.func
+            if isinstance(f, ast.Attribute) and isinstance(f.value, ast.Name) and f.value.id == "math" and f.attr in ("exp", "log", "sqrt"):
+                return (f.attr, self.expr(e.args[0], env, rname))
+            if isinstance(f, ast.Name) and f.id in self.SYMS and len(e.args) == 1 and isinstance(e.args[0], ast.Name) and e.args[0].id == rname:
+                return ("sym", self.SYMS.index(f.id))
+            raise Untranslatable("call %s" % ast.dump(f)[:60])
+        raise Untranslatable("expression %s" % type(e).__name__)
+
+
+def find_closures(fn):
+    """nested FunctionDefs named potential / deriv / deriv2 anywhere inside fn"""
+    out = {}
+    for n in ast.walk(fn):
+        if isinstance(n, ast.FunctionDef) and n is not fn and n.name in ("potential", "deriv", "deriv2"):
+            out[n.name] = n
+    return out
+
+
+def gen_combinators(repo, outdir, summary):
+    path = os.path.join(repo, "atsim/potentials/__init__.py")
+    src = open(path).read()
+    tree = ast.parse(src)
+    ct = ClosureTranslator(src)
+    out = ["import AtsimModel.Model.Expr",
+           "/-! GENERATED by translator/py2lean.py from atsim/potentials/__init__.py (closures of plus / product / pow) - do not edit.",
+           "    Function symbols: " + ", ".join("%d=%s(r)" % (i, s) for i, s in enumerate(ct.SYMS)) + " -/",
+           "namespace Atsim.Gen", "open Atsim", ""]
+    res = {}
+    for node in tree.body:
+        if isinstance(node, ast.FunctionDef) and node.name in ("plus", "product", "pow"):
+            cl = find_closures(node)
+            for cname in ("potential", "deriv", "deriv2"):
+                try:
+                    if cname not in cl:
+                        raise Untranslatable("closure %s missing" % cname)
+                    term = ct.closure(cl[cname])
+                    res["%s.%s" % (node.name, cname)] = True
+                except Untranslatable as e:
+                    term = ("bad",)
+                    res["%s.%s" % (node.name, cname)] = str(e)
+                out.append("def %s_%s : E := %s" % (node.name, cname, lean(term)))
+            out.append("")
+    # num_deriv from _util.py
+    upath = os.path.join(repo, "atsim/potentials/_util.py")
+    usrc = open(upath).read()
+    out += ["end Atsim.Gen", ""]
+    changed = write_if_changed(os.path.join(outdir, "Combinators.lean"), "\n".join(out))
+    summary["combinators"] = dict(changed=changed, closures=res)
+
+
+# ----------------------------------------------------------------------------------------------------------------------
+def main():
+    repo, outdir = sys.argv[1], sys.argv[2]
+    summary = {}
+    gen_forms(repo, outdir, summary)
+    gen_combinators(repo, outdir, summary)
+    bad = []
+    for k, e in summary["forms"]["forms"].items():
+        for m, v in e.items():
+            if v is not True:
+                bad.append("%s.%s: %s" % (k, m, v))
+    for k, v in summary["combinators"]["closures"].items():
+        if v is not True:
+            bad.append("%s: %s" % (k, v))
+    print(json.dumps(dict(summary=dict(untranslatable=bad, forms_changed=summary["forms"]["changed"], combinators_changed=summary["combinators"]["changed"]),
+                          detail=summary)))
+
+
+if __name__ == "__main__":
+    main()
